@@ -94,13 +94,15 @@ class C08(Prop):
 
     def cases(self, rng: random.Random, tier: str) -> Iterable[dict]:
         C08._variant = -1
-        forced = [0.05, 0.14, 0.18, 0.18, 0.18, 0.18, 0.18, 0.23] * 2      # every dedicated family, whatever the seed
+        forced = [0.05, 0.14, 0.17, 0.18, 0.18, 0.18, 0.18, 0.18, 0.23] * 2      # every dedicated family, whatever the seed
         while True:
             r = forced.pop() if forced else rng.random()
             if r < 0.12:
                 c = self._entry_bypass(rng)
             elif r < 0.16:
                 c = self._cycle_seed_default(rng)
+            elif r < 0.175:
+                c = self._signal_select(rng)
             elif r < 0.2:
                 c = self._inner_binding_renamed(rng)
             elif r < 0.26:
@@ -168,6 +170,21 @@ class C08(Prop):
         rng.shuffle(nodes)
         values = [["prompt", 1], ["step", 1], ["msgs", {"l": []}], ["total", 0]]
         return {"program": [{"name": "g0", "nodes": nodes, "bound": []}], "values": values, "fixed_ops": True}
+
+    @staticmethod
+    def _signal_select(rng: random.Random) -> dict:
+        """load(cfg) emits `ready`; work(x) waits for it; a selection names work's output only: load is still needed (its signal orders work),
+        so its input stays required."""
+        chain = rng.randint(0, 2)
+        nodes = [{"name": "load", "kind": "fn", "params": [["cfg", None]], "dataOuts": [] if rng.random() < 0.6 else ["conf"], "body": {"b": "tag", "t": "load"}, "emits": ["ready"]},
+                 {"name": "work", "kind": "fn", "params": [["x", None]], "dataOuts": ["out"], "body": {"b": "tag", "t": "work"}, "waitFor": ["ready"]}]
+        prev = "out"
+        for j in range(chain):
+            nodes.append({"name": f"post{j}", "kind": "fn", "params": [[prev, None]], "dataOuts": [f"fin{j}"], "body": {"b": "tag", "t": f"post{j}"}})
+            prev = f"fin{j}"
+        rng.shuffle(nodes)
+        g: dict[str, Any] = {"name": "g0", "nodes": nodes, "bound": [], "selected": [prev]}
+        return {"program": [g], "values": [["cfg", 1], ["x", 2]], "fixed_ops": True}
 
     @staticmethod
     def _cycle_seed_default(rng: random.Random) -> dict:
@@ -309,6 +326,7 @@ class C08(Prop):
             if t["entrypoint"] is not None and obs["effspec"]["entrypoints"] and len(obs["effspec"]["entrypoints"]) > 1:
                 kwargs["entrypoint"] = t["entrypoint"]
             vals = {k: py_val(v) for k, v in t["values"]}
+            produced: list = []
             outcome: str
             with warnings.catch_warnings():
                 warnings.simplefilter("ignore")
@@ -318,13 +336,14 @@ class C08(Prop):
                     else:
                         r = asyncio.run(AsyncRunner().run(g, vals, error_handling="continue", max_iterations=60, **kwargs))
                     outcome = "ran"
+                    produced = sorted(r.values.keys())
                     err = impl.canon_error(r.error, env) if r.error is not None else None
                     if err is not None and not str(err).startswith("user") and err != "InfiniteLoopError":
                         # accepted, but the run then died for want of a value (not a node's own error)
                         outcome = "ran:" + str(err)
                 except Exception as e:
                     outcome = classify(e)
-            trials.append({"omit": t["omit"], "values": t["values"], "entrypoint": kwargs.get("entrypoint"), "outcome": outcome,
+            trials.append({"omit": t["omit"], "values": t["values"], "entrypoint": kwargs.get("entrypoint"), "outcome": outcome, "produced": produced if outcome == "ran" else None,
                            "calls": len(env.log) - start, "events": len(rec.events), "shutdowns": rec.shutdowns})
         obs["trials"] = trials
         # history: derive graphs from the one that has just been run (same run-time select) and check their contract too
@@ -413,6 +432,16 @@ class C08(Prop):
                     return f"all required inputs (and one listed entry point) supplied, yet rejected with MissingInputError; values={t['values']}"
                 if t["outcome"] != "ran" and not t["outcome"].startswith("ran:"):
                     return f"all required inputs (and one listed entry point) supplied, yet the call was rejected with {t['outcome']}; values={t['values']}" + inote
+                root_spec = case["program"][-1]
+                plain = len(case["program"]) == 1 and not root_spec.get("entrypoints") and all(n["kind"] == "fn" and n["body"]["b"] not in ("fail", "failIf", "failGe")
+                                                                                                 for n in root_spec["nodes"])
+                want = case["rtselect"] if case["rtselect"] is not None else root_spec.get("selected")
+                if plain and t["outcome"] == "ran" and want:
+                    # a gate-free, failure-free, flat graph given everything its spec asks for produces what was selected
+                    lost = [o for o in want if o not in (t.get("produced") or [])]
+                    if lost:
+                        return (f"all required inputs supplied and accepted, yet the selected output {lost[0]!r} was never produced: something outside the "
+                                f"reported spec is needed; values={t['values']}")
                 if t["outcome"].startswith("ran:"):
                     return f"all required inputs (and one listed entry point) supplied and accepted, yet the run then failed with {t['outcome'][4:]}: something else was needed; values={t['values']}"
             else:
